@@ -67,7 +67,7 @@ def same_arrangement(part, X, Y, key, what, case, tol=1e-6):
         part.fail(key, "%s: re-expressed -> original: %s" % (what, why2), case)
         return False
     vx, vy = abs(np.linalg.det(X[2])), abs(np.linalg.det(Y[2]))
-    if abs(len(X[0]) / vx - len(Y[0]) / vy) > 1e-9 * len(X[0]) / vx:
+    if not (abs(len(X[0]) / vx - len(Y[0]) / vy) <= 1e-9 * len(X[0]) / vx):
         part.fail(key + ":count", "%s: atom count does not scale with the cell volume (%d in %.3f A^3 vs %d in %.3f A^3)"
                   % (what, len(X[0]), vx, len(Y[0]), vy), case)
         return False
@@ -126,7 +126,7 @@ def p1_case(part, row, case):
                 part.fail("count:%s" % tag, "%s%s of %s holds %d atoms, expected %d x %d" % (route, size, sk, len(Y[0]), n, len(X[0])), cc)
                 continue
             vr = abs(np.linalg.det(Y[2])) / abs(np.linalg.det(X[2]))
-            if abs(vr - n) > 1e-9 * n:
+            if not (abs(vr - n) <= 1e-9 * n):
                 part.fail("volume:%s" % tag, "%s%s: cell volume ratio %.9f, expected %d" % (route, size, vr, n), cc)
             if not rotated:
                 same_arrangement(part, X, Y, "arrangement:%s" % tag, "%s%s of %s" % (route, size, sk), cc)
@@ -143,7 +143,7 @@ def p1_case(part, row, case):
                 same_arrangement(part, Xc, Yc, "arrangement:%s" % tag, "%s%s of %s given by rotated lattice vectors" % (route, size, sk), cc)
             d2 = float(p.density)
             part.dev("density_rel", abs(d2 - dens) / dens)
-            if abs(d2 - dens) > 1e-9 * dens:
+            if not (abs(d2 - dens) <= 1e-9 * dens):
                 part.fail("density:%s" % tag, "%s%s: density %.9f vs %.9f" % (route, size, d2, dens), cc)
             part.outcome((route, tuple(size), len(X[0]), rotated))
     part.nontriv((sk, case["zkind"], tuple(case["centre"]), case.get("frame")))
@@ -206,7 +206,7 @@ def special_position_cases(part, seed):
                                 part.fail("count:%s" % tag, "%s%s of %s holds %d atoms, expected %d x %d" % (route, size, key, len(Y[0]), n, len(X[0])), dict(case, size=list(size)))
                                 continue
                             same_arrangement(part, X, Y, "arrangement:%s" % tag, "%s%s of a molecule on a special position of %s" % (route, size, key), dict(case, size=list(size)))
-                            if abs(float(p.density) - dens) > 1e-9 * dens:
+                            if not (abs(float(p.density) - dens) <= 1e-9 * dens):
                                 part.fail("density:%s" % tag, "density changes in %s%s" % (route, size), dict(case, size=list(size)))
                             part.outcome((route, tuple(size), key[0], "special"))
                     part.nontriv(("special", key, centre, ci, oi, tuple(syms)))
@@ -333,7 +333,7 @@ def trig_worker(part, spec, max_len):
             d = float(c.density)
             df = float(xtal.fresh_from_state(xtal.public_state(c)).density)
             part.dev("density_rel", abs(d - dens0) / dens0)
-            if abs(d - dens0) > 1e-9 * dens0 or abs(df - dens0) > 1e-9 * dens0:
+            if not (abs(d - dens0) <= 1e-9 * dens0) or not (abs(df - dens0) <= 1e-9 * dens0):
                 part.fail("trig-density:%s:%s" % (tag, spec["asym"]), "density %.9f (fresh %.9f) vs original %.9f after %s" % (d, df, dens0, word), case)
             if target == spec["start"]:
                 ps = xtal.public_state(c)
@@ -347,7 +347,7 @@ def trig_worker(part, spec, max_len):
                 # the target cell must have the metric of the other setting: volume ratio 3 (H) : 1 (R)
                 v0, v1 = abs(np.linalg.det(X0[2])), abs(np.linalg.det(Y[2]))
                 want = 3.0 if target == "H" else 1.0 / 3.0
-                if abs(v1 / v0 - want) > 1e-9:
+                if not (abs(v1 / v0 - want) <= 1e-9):
                     part.fail("trig-volume:%s" % tag, "cell volume ratio %.9f after %s, expected %.6f" % (v1 / v0, word, want), case)
                 uc = c.unit_cell
                 if target == "H" and not (abs(uc.a - uc.b) < 1e-9 and abs(uc.alpha_deg - 90) < 1e-7 and abs(uc.gamma_deg - 120) < 1e-7):
